@@ -11,6 +11,7 @@
 #include <fstream>
 #include <sstream>
 #include <functional>
+#include <map>
 #define private public
 #include "gaussquad.hpp"
 #undef private
@@ -66,13 +67,32 @@ int main(int argc, char** argv) {
     }
     verif::ctl().quad_defer = 0;
 #endif
-    std::fprintf(f, "case %s\n", id.c_str());
-    std::fprintf(f, "int type %d\nint points %d\nint maxN %d\nint M %d\nint kind %d\nint k %d\nint start %d\nint end %d\nint converged %d\n", type, points, g.maxN, g.M, kind, k, start, end, res.second ? 1 : 0);
-    std::fprintf(f, "mat params 1 6 %a %a %a %a %a %a\n", tol, zt, pt, z, c, res.first);
-    std::fprintf(f, "mat defer 1 8 %a %a %a %a %a %a %a %a\n", d1, (double)c1, d2, (double)c2, d3, (double)c3, d4, (double)c4);
     auto putv = [&](const char* nm, const std::vector<double>& v) { std::fprintf(f, "mat %s 1 %d", nm, (int)v.size()); for (double d : v) std::fprintf(f, " %a", d); std::fprintf(f, "\n"); };
-    putv("x0", x0); putv("w0", w0); putv("x", g.x); putv("w", g.w);
-    std::fprintf(f, "end\n");
+    auto emit = [&](const std::string& cid, GCQuadrature& q, const std::vector<double>& xi, const std::vector<double>& wi, std::pair<double, bool> r) {
+      std::fprintf(f, "case %s\n", cid.c_str());
+      std::fprintf(f, "int type %d\nint points %d\nint maxN %d\nint M %d\nint kind %d\nint k %d\nint start %d\nint end %d\nint converged %d\n", type, points, q.maxN, q.M, kind, k, start, end, r.second ? 1 : 0);
+      std::fprintf(f, "mat params 1 6 %a %a %a %a %a %a\n", tol, zt, pt, z, c, r.first);
+      std::fprintf(f, "mat defer 1 8 %a %a %a %a %a %a %a %a\n", d1, (double)c1, d2, (double)c2, d3, (double)c3, d4, (double)c4);
+      putv("x0", xi); putv("w0", wi); putv("x", q.x); putv("w", q.w);
+      std::fprintf(f, "end\n");
+    };
+    emit(id, g, x0, w0, res);
+    // object histories: the same case on objects that have been used before -- one object per (scheme, requested size) that is
+    // re-initialised to the same size after its grid was transformed in place, and one object re-initialised for every case whatever
+    // its size; each is reported as a case of its own (suffix _rs / _ra), so that the model correspondence (grid after initGrid,
+    // transform, adaptive scheme) and the property are checked for re-initialised objects exactly as for fresh ones
+    static std::map<std::pair<int, int>, GCQuadrature> gsame; static GCQuadrature gany;
+    auto again = [&](GCQuadrature& q, const char* suffix) {
+      q.initGrid(points, type == 1 ? ONEPOINT : TWOPOINT);
+      std::vector<double> xi = q.x, wi = q.w;
+      if (kind == 1) q.transformRMinMax(zt, pt); else if (kind == 2) q.transformZeroInf();
+      if ((int)q.x.size() <= end || q.maxN <= end) { std::fprintf(f, "case %s%s\nint type %d\nint points %d\nint maxN %d\nint M %d\nint kind %d\nint k %d\nint start %d\nint end %d\nint converged 0\n", id.c_str(), suffix, type, points, q.maxN, q.M, kind, k, start, end);
+        std::fprintf(f, "mat params 1 6 %a %a %a %a %a %a\n", tol, zt, pt, z, c, 0.0); std::fprintf(f, "mat defer 1 8 0 0 0 0 0 0 0 0\n"); putv("x0", xi); putv("w0", wi); putv("x", q.x); putv("w", q.w); std::fprintf(f, "end\n"); return; }
+      auto r = q.integrate(fn, (const double*)&prm, tol, start, end);
+      emit(id + suffix, q, xi, wi, r);
+    };
+    again(gsame[std::make_pair(type, points)], "_rs");
+    again(gany, "_ra");
   }
   std::fclose(f); return 0;
 }
